@@ -250,6 +250,14 @@ class Cas:
             if isinstance(n, ast.Assign) and len(n.targets) == 1 and isinstance(n.targets[0], ast.Name) and isinstance(n.value, ast.Call):
                 c = n.value
                 fname = ast.unparse(c.func)
+                if fname.endswith("compute_hash") and len(c.args) == 1 and isinstance(c.args[0], ast.IfExp):
+                    # compute_hash(<text> if <file exists> else None): where the hash is taken at all it is the hash of <text>
+                    # (the None case is excluded by the guard in front of it - a path fact, NNState)
+                    ie = c.args[0]
+                    pick = ie.body if isinstance(ie.orelse, ast.Constant) and ie.orelse.value is None else ie.orelse if isinstance(ie.body, ast.Constant) and ie.body.value is None else None
+                    if isinstance(pick, ast.Name) and pick.id in reads:
+                        out.setdefault(n.targets[0].id, []).append((n, pick.id))
+                        continue
                 if fname.endswith("compute_hash") and len(c.args) == 1 and isinstance(c.args[0], ast.Name) and c.args[0].id in reads:
                     out.setdefault(n.targets[0].id, []).append((n, c.args[0].id))
                 elif fname.endswith("compute_hash") and len(c.args) == 1 and isinstance(c.args[0], ast.Call) and isinstance(c.args[0].func, ast.Attribute):
@@ -379,7 +387,9 @@ class Cas:
                 continue  # passing the compare (either edge) discharges the obligation
             if self.bh and all(dict(st).get("bh:" + b) == "F" for b in self.bh):
                 continue  # base_hash is known falsy on this path: there is nothing to compare
-            for s, lab, st2 in nn.edges(cfg, n, st):
+            for s, lab, st2 in nn.edges(cfg, n, st, follow_exc=True):
+                if lab == "x" and cfg.nodes[s].kind != "handler":
+                    continue  # (an exception that is CAUGHT in the function continues in its handler: ordinary control flow)
                 if (s, st2) in seen:
                     continue
                 if n in self.protecting and lab == "f":
@@ -681,6 +691,13 @@ class NNState:
         self.reads = set(reads)
         self.bh = set(bh)
         self.tracked |= self.reads
+        # locals bound exactly once (`file_exists = path.exists()`) and tested as plain names: their truth is a path fact too
+        stores: dict[str, int] = {}
+        for n in walk_no_nested(fn):
+            if isinstance(n, ast.Name) and isinstance(n.ctx, (ast.Store, ast.Del)):
+                stores[n.id] = stores.get(n.id, 0) + 1
+        params = {a.arg for a in ast.walk(fn.args) if isinstance(a, ast.arg)} if hasattr(fn, "args") else set()
+        self.flags = {nm for nm, k in stores.items() if k == 1 and nm not in self.tracked and nm not in self.bh and nm not in params}
 
     # -- atoms
     def _atom(self, t: ast.AST):
@@ -692,6 +709,8 @@ class NNState:
             return ("tr", t.id, not neg)
         if isinstance(t, ast.Name) and t.id in self.tracked and t.id not in self.reads:
             return ("nn", t.id, not neg)  # (a None-or-error local: truthy <=> not None)
+        if isinstance(t, ast.Name) and t.id in self.flags:
+            return ("fl", t.id, not neg)
         if isinstance(t, ast.Compare) and len(t.ops) == 1 and isinstance(t.left, ast.Name) and isinstance(t.comparators[0], ast.Constant) and t.comparators[0].value is None and isinstance(t.ops[0], (ast.Is, ast.IsNot)):
             if t.left.id in self.tracked:
                 return ("nn", t.left.id, isinstance(t.ops[0], ast.IsNot) != neg)
@@ -708,10 +727,25 @@ class NNState:
         if isinstance(t, ast.UnaryOp) and isinstance(t.op, ast.Not) and isinstance(t.operand, ast.BoolOp):
             v = self.evaluate(t.operand, d)
             return None if v is None else not v
+        if isinstance(t, ast.UnaryOp) and isinstance(t.op, ast.Not) and isinstance(t.operand, ast.Compare):
+            v = self.evaluate(t.operand, d)
+            return None if v is None else not v
+        if isinstance(t, ast.Compare) and len(t.ops) == 1 and isinstance(t.ops[0], (ast.Is, ast.IsNot)) and isinstance(t.comparators[0], ast.Constant) and t.comparators[0].value is None:
+            # `(A if c else B) is None` under a known c; `None is None`
+            if isinstance(t.left, ast.IfExp):
+                c = self.evaluate(t.left.test, d)
+                if c is None:
+                    return None
+                return self.evaluate(ast.Compare(left=t.left.body if c else t.left.orelse, ops=t.ops, comparators=t.comparators), d)
+            if isinstance(t.left, ast.Constant):
+                return (t.left.value is None) == isinstance(t.ops[0], ast.Is)
         a = self._atom(t)
         if a is None:
             return None
         kind, var, pol = a
+        if kind == "fl":
+            k = d.get("fl:" + var)
+            return None if k is None else ((k == "T") == pol)
         if kind == "nn":
             k = d.get(var)
             return None if k is None else ((k != "N") == pol)
@@ -744,6 +778,8 @@ class NNState:
             d[var] = ("E" if d.get(var) != "R" else "R") if (val == pol) else "N"
         elif kind == "tr":
             d["bh:" + var] = "T" if (val == pol) else "F"
+        elif kind == "fl":
+            d["fl:" + var] = "T" if (val == pol) else "F"
 
     def test_of(self, t: ast.AST) -> tuple[str, bool] | None:  # (kept for callers that only need the simple form)
         a = self._atom(t) if t is not None else None
@@ -757,7 +793,19 @@ class NNState:
             tg = node.ast.targets[0].id
             v = node.ast.value
             if tg in self.reads:
-                d[tg] = "R"
+                # text just read is never None - but only where it IS read: the same local may be preset to None, or get None
+                # from the branch that found no file
+                if isinstance(v, ast.Constant) and v.value is None:
+                    d[tg] = "N"
+                elif isinstance(v, ast.Name) and v.id in self.tracked:
+                    if v.id in d:
+                        d[tg] = d[v.id]
+                    else:
+                        d.pop(tg, None)
+                elif any(isinstance(c, ast.Call) and isinstance(c.func, ast.Attribute) and c.func.attr in ("read", "read_text", "read_bytes", "decode") for c in ast.walk(v)) or isinstance(v, (ast.Constant, ast.JoinedStr)):
+                    d[tg] = "R"
+                else:
+                    d.pop(tg, None)
             elif tg in self.tracked:
                 if isinstance(v, ast.Name) and v.id in self.tracked:
                     if v.id in d:
